@@ -46,7 +46,7 @@ OBLIGATIONS = {"intersect": 100, "intersect:partial-left": 5,
                "intersect:reused-object-other-set": 30, "intersect:split-grid": 50,
                "intersect:target-dtype": 30, "intersect:same-shape-shifted": 10,
                "voronoi:near-tie": 5, "voronoi:mirror-pair-decimal": 3,
-               "intersect:target-is-clipped-grid": 10, "intersect:sum-of-catchments": 10, "intersect:ratio-near-a-whole-number": 20, "intersect:after-delineate-boundary": 20, "intersect:sum-of-catchments-filled": 10,
+               "intersect:target-is-clipped-grid": 10, "intersect:sum-of-catchments": 10, "voronoi:extreme-map-units": 10, "intersect:ratio-near-a-whole-number": 20, "intersect:after-delineate-boundary": 20, "intersect:sum-of-catchments-filled": 10,
                "voronoi:catchment-with-delineation-history": 5}
 
 
@@ -183,6 +183,26 @@ def run_intersect_case(ctx, case):
     for i, use_filled in enumerate(seq):
         judge_intersect(ctx, dict(case, filled=use_filled, call=i), g, cat, cg, fine,
                         coarse, cells, filled_cells, use_filled)
+    # the catchment intersected with its own flow grid (the very object, and a clone of
+    # it): every cell of the set asked for, with weight 1
+    if (len(cells) + coarse["ncols"]) % 3 != 2:
+        for own in (cat.flowdir, cat.flowdir.clone()):
+            for use_filled in (True, False):
+                want = sorted(set(filled_cells if use_filled else cells))
+                ctx.api("intersect")
+                ctx.tag("intersect:with-own-flow-grid")
+                try:
+                    with warnings.catch_warnings():
+                        warnings.simplefilter("ignore")
+                        _, ic_, w_ = cat.intersect(own, filled=use_filled)
+                    oko = sorted(int(v) for v in ic_) == want and \
+                        bool(np.all(np.abs(np.asarray(w_, dtype=float) - 1.0) <= 1e-12))
+                    det_ = {"filled": use_filled, "cells": sorted(int(v) for v in ic_)[:12],
+                            "expected": want[:12], "weights": np.asarray(w_)[:6]}
+                except Exception as e:
+                    oko, det_ = False, {"filled": use_filled, "exc": repr(e)[:200]}
+                ctx.check("intersect.own-grid", oko,
+                          "intersect|own-flow-grid|cells-or-weights", case, det_)
 
 
 def judge_intersect(ctx, case, g, cat, cg, fine, coarse, cells, filled_cells,
@@ -623,9 +643,15 @@ def run(ctx):
         vf = {"nrows": nr, "ncols": nc, "csz": 1.0, "xll": 0.0, "yll": 0.0}
         # every other case: the same configuration on a grid with another origin and
         # cell size (dyadic, so that all distances stay exact)
-        vsc = [1.0, 0.5, 2.0][(it // 2) % 3] if it % 2 else 1.0
+        # (... including map units of 1e33, 1e120 and 1e-120: the origin is then a whole
+        # number of half cells, so that every coordinate stays exact)
+        vsc = [1.0, 0.5, 2.0, 2.0 ** 110, 2.0 ** 400, 2.0 ** -400][(it // 2) % 6] \
+            if it % 2 else 1.0
         vox = float(rng.integers(-40, 41)) / 2.0 if it % 2 else 0.0
         voy = float(rng.integers(-40, 41)) / 2.0 if it % 2 else 0.0
+        if vsc > 4 or vsc < 0.25:
+            vox, voy = vox * vsc, voy * vsc
+            ctx.tag("voronoi:extreme-map-units")
         npts = int(rng.integers(1, 7))
         if it % 4 == 3 and cells:
             # points clustered (k/8 lattice) around the centre of one catchment
